@@ -3,12 +3,21 @@
 into /verif/seeded/<id>/{patch.diff, demo.rs, meta.json} and print the detection matrix."""
 import json, glob, os, shutil, re
 rows=[]
+SNAPSHOT_BY_ROUND={'':'4d6015a','r2':'ba86044','r3':'68877bb'}
+try:
+    FINAL=json.load(open('/root/final_targeted.json'))
+except Exception:
+    FINAL={}
 for f in sorted(glob.glob('/tmp/evalmut-C*-*.json')):
     r=json.load(open(f))
     ident=r['id']; prop,i=ident.split('-')
-    round2 = prop.endswith('r2')
+    tag = prop[3:]            # '', 'r2', 'r3', ...
     prop = prop[:3]
-    src=f'/tmp/mutout2-{prop}' if round2 else f'/tmp/mutout-{prop}'
+    src = f"/tmp/mutout{tag[1:]}-{prop}" if tag else f'/tmp/mutout-{prop}'
+    if not os.path.exists(f'{src}/patch{i}.diff'):
+        if os.path.exists(f'/verif/seeded/{ident}/patch.diff'):
+            continue   # assembled in an earlier session
+        print('SOURCE MISSING', ident); continue
     ok = (not r.get('error') and r.get('suite_with_patch',{}).get('passed')==1032 and r.get('suite_with_patch',{}).get('failed')==0
           and r.get('demo_with_patch') and r['demo_with_patch'][1]>0 and r.get('demo_clean') and r['demo_clean'][1]==0)
     if not ok:
@@ -24,6 +33,9 @@ for f in sorted(glob.glob('/tmp/evalmut-C*-*.json')):
     meta={
       "id": ident,
       "origin": "independent sub-agent given only the property text and a scratch worktree of /repo",
+      "round": int(tag[1:]) if tag else 1,
+      "evaluated_on_verif_commit": r.get('verif_snapshot') or SNAPSHOT_BY_ROUND.get(tag, 'unknown'),
+      "targeted_check_quick_on_final_snapshot": FINAL.get(ident),
       "breaks": prop,
       "description_by_author": agent_meta,
       "confirmed": {
